@@ -233,3 +233,91 @@ def container_history(rng, maxev=10):
     if gmf:
         h += [as_smf(song, "gmf", gmfeot=rng.choice([1, 2]), gmfhdr=[rng.randrange(256) for _ in range(3)]), {"e": "Load"}, {"e": "Play"}]
     return h
+
+
+# ------------------------------------------------------------------ sessions: several files in a row on ONE player
+def container_source(rng, maxev=6):
+    """one SMF source record: bare, RMI or GMF"""
+    c = rng.choice(["smf", "rmi", "rmi", "gmf"])
+    if c == "gmf":
+        song = to_div192(gen_seq.random_song(rng, ntracks=1, maxev=maxev, fmt=0))
+        song["fmt"] = 0
+        return as_smf(song, "gmf", gmfeot=rng.choice([1, 2]), gmfhdr=[rng.randrange(256) for _ in range(3)])
+    song = gen_seq.random_song(rng, maxev=maxev)
+    return as_smf(song, c, rmilist=rng.choice([0, 1])) if c == "rmi" else as_smf(song, "smf")
+
+
+def undefined_source(rng, nev=4):
+    """a file the formats do not define (the player may reject it): any source cut short below 14 bytes (no header is
+    complete), an XMI file with an overwritten chunk tag, or a MUS score with overwritten bytes"""
+    r = rng.random()
+    if r < 0.3:
+        src = dict(rng.choice([xmi_file(rng, nev=nev), mus_score(rng, nev), container_source(rng, 4)]))
+        src["keep"] = rng.randrange(1, 14)
+    elif r < 0.75:
+        # an XMI file with a damaged chunk tag ("CAT " at 22..25, its "XMID" at 30..33): the converter's own rejection.  (An XMI
+        # file cut short inside a chunk is C01's subject: the converter's readers only assert their bounds, known finding there.)
+        src = dict(xmi_file(rng, nsongs=rng.choice([1, 2, 3]), nev=nev))
+        src["poke"] = [[rng.choice([22, 23, 24, 25, 30, 31, 32, 33]), rng.choice([0, 0x20, 0x58, 0xFF])]]
+    else:
+        src = dict(mus_score(rng, nev, allow_odd=True))
+        src["poke"] = [[rng.randrange(4000), rng.choice([0x50 | rng.randrange(16), 0x70 | rng.randrange(16), 0xFF, rng.randrange(256)])]
+                       for _ in range(rng.choice([1, 2, 3]))]
+    return src
+
+
+def session_history(rng, nfiles=3, nev=6, weights=(0.5, 0.17, 0.15, 0.18)):
+    """<source> [Select] Load [Select] Play groups WITHOUT an Init in between: every file is judged like a single load (events per
+    tick group of THAT file and THAT selected song, song count of THAT file).  XMI files of one session differ in their number of
+    songs and in their songs; selections are made before a load, after it, or are left over from an earlier file (also out of
+    the range of the file at hand); MUS / SMF / RMI / GMF and undefined (possibly rejected) files stand in between."""
+    h = [INIT]
+    wx, wm, ws, wu = weights
+    last_n = 0
+    for i in range(nfiles):
+        r = rng.random()
+        if r < wx:
+            n = rng.choice([k for k in (1, 2, 2, 3, 3, 4) if k != last_n])
+            f = xmi_file(rng, nsongs=n, nev=rng.choice([2, nev]), tempo=None)
+            last_n = n
+            h.append(f)
+            q = rng.random()
+            if q < 0.45: h.append({"e": "Select", "n": rng.randrange(n)})
+            elif q < 0.55: h.append({"e": "Select", "n": rng.randrange(n, 6)})          # beyond the file: its last song
+            h += [{"e": "Load"}, {"e": "Play"}]                                            # else: the selection left by the files before
+            if rng.random() < 0.4:
+                h += [{"e": "Select", "n": rng.randrange(n + 1)}, {"e": "Play"}]
+        elif r < wx + wm:
+            h.append(mus_score(rng, nev))
+            if rng.random() < 0.3: h.append({"e": "Select", "n": rng.randrange(4)})
+            h += [{"e": "Load"}, {"e": "Play"}]
+        elif r < wx + wm + ws:
+            h.append(container_source(rng))
+            h += [{"e": "Load"}]
+            if rng.random() < 0.3: h.append({"e": "Select", "n": rng.randrange(4)})
+            h += [{"e": "Play"}]
+        else:
+            h.append(undefined_source(rng))
+            h += [{"e": "Load"}]
+            if rng.random() < 0.3: h.append({"e": "Play", "max": 200})
+    return h
+
+
+def session_pairs(rng):
+    """the systematic part: every ordered pair of kinds (XMI with 1 / 3 songs, MUS, wrapped SMF, undefined), then an XMI file"""
+    kinds = ["xmi1", "xmi3", "mus", "smf", "undef"]
+    out = []
+    for a in kinds:
+        for b in kinds:
+            h = [INIT]
+            for k in (a, b, "xmi2"):
+                if k.startswith("xmi"):
+                    n = int(k[3])
+                    h += [xmi_file(rng, nsongs=n, nev=3)]
+                    if n > 1: h.append({"e": "Select", "n": rng.randrange(n)})
+                    h += [{"e": "Load"}, {"e": "Play"}]
+                elif k == "mus": h += [mus_score(rng, 3), {"e": "Load"}, {"e": "Play"}]
+                elif k == "smf": h += [container_source(rng, 4), {"e": "Load"}, {"e": "Play"}]
+                else: h += [undefined_source(rng, 3), {"e": "Load"}]
+            out.append(h)
+    return out
